@@ -194,6 +194,9 @@ def build(o, repo, work, witness=False):
         if o.loops:
             cmd += ["--apply-loop-contracts"]
         cmd += list(o.gi_flags or [])
+        if not o.malloc_may_fail:
+            # under --dfcc the malloc model is linked by goto-instrument: the flag has to be given here
+            cmd += ["--no-malloc-may-fail"]
         cmd += [a, b]
         rc, out, _ = run(cmd, 600, 12, work)
         info["goto_instrument"] = " ".join(cmd)
